@@ -478,3 +478,18 @@ Proof.
     + intros k'. subst aC'. cbn [collect snd vals]. rewrite HcC. rewrite !measure_all_get, Hinv, HvD, HoD, HoC. reflexivity.
     + cbn in Hj; lia.
 Qed.
+
+(** the running total of the first [m] delta collections is the total of the first [m] cycles *)
+Lemma arun_delta_running c cycles tm : a_op c = OpAdd -> clears c = true -> is_presum_delta c = false ->
+  forall n a m k acc, vals a = [] ->
+  fold_left (fun s p => oadd s (get k p)) (firstn m (map o_points (arun c cycles tm n a))) acc =
+  oadd acc (ofold OpAdd (sel k (concat (firstn m cycles)))).
+Proof.
+  intros Ho Hc Hp. induction cycles as [|cyc r IH]; intros n a m k acc Hv.
+  - destruct m; cbn [arun map firstn fold_left concat sel ofold fold_right]; unfold oadd; now rewrite ocomb_none_r.
+  - destruct m as [|m]; [cbn [firstn fold_left concat sel map ofold fold_right]; unfold oadd; now rewrite ocomb_none_r|].
+    rewrite arun_cons. cbn [map firstn fold_left concat].
+    rewrite IH by (cbn; now rewrite Hc).
+    unfold collect at 1, o_points at 1; cbn [fst snd]. rewrite out_points_get, Hp, measure_all_get, Hv, Ho.
+    cbn [get ocomb]. rewrite sel_app, ofold_app. unfold oadd. now rewrite ocomb_assoc.
+Qed.
